@@ -147,6 +147,15 @@ def main(ck, tier, w, pid='C05'):
         if r.rc != 0 or {k: v[0] for k, v in st.get('types', {}).items()} != est['types']:
             ck.violation('end-to-end simplestats type counts differ on %s: %s vs %s' % (coin, {k: v[0] for k, v in st.get('types', {}).items()}, est['types']),
                          {'coin': coin, 'observed': r.brief(), 'tags': []})
+        # the address column of the two UTXO dumps is the same verdict once more (it travels through the callbacks' own storage)
+        utx = ref.utxo_expected(list(enumerate(blocks)), coin)
+        for cb, pre, want in (('unspentcsvdump', 'unspent', ref.unspent_rows(utx)), ('balances', 'balances', ref.balances_rows(utx))):
+            r = run.run_parser(d, cb, dump=w.mk('out'), coin=coin)
+            rows = set(r.files.get('%s-0-2.csv' % pre, b'').decode('utf-8', 'replace').splitlines()[1:])
+            ck.evals()
+            if r.rc != 0 or rows != want:
+                ck.violation('end-to-end %s rows differ from the reference on %s (exit %d): unexpected %s, missing %s' % (
+                    cb, coin, r.rc, sorted(rows - want)[:3], sorted(want - rows)[:3]), {'coin': coin, 'observed': r.brief(), 'tags': []})
     ck.assumptions += ['Base58Check / Bech32(m) / HASH160 encoders of /verif/lib/btc.py (BIP173/350 vectors) are trusted',
                        'type label of m-of-n scripts whose pushes are not 33/65 bytes is left open (either multisig or unrecognised), '
                        'no address in both cases']
